@@ -769,6 +769,8 @@ def run_mode(repo, name, cfg):
         if name == "ccm" and how != "one":
             kw["msg_len"] = len(msg)
             kw["assoc_len"] = len(header)
+        if cfg["how"] == "declared0":
+            kw["msg_len"] = 0
         o = w.create(modname, fname, **kw)
         return w, o
     # ---- sender
@@ -782,7 +784,15 @@ def run_mode(repo, name, cfg):
             r = w.call(o, "update", give(w, p))
             if isinstance(r, tuple):
                 return "update: %r" % (r,)
-    if how == "inplace" and name == "siv":
+    if how == "declared0":
+        r = w.call(o, "encrypt", b"")
+        if r != b"":
+            return "encrypt(b'') with msg_len=0 declared: %r" % (r,)
+        got_c = b""
+        got_t = w.call(o, "digest")
+        if not isinstance(got_t, bytes):
+            return "digest after encrypt(b'') with msg_len=0 declared: %r" % (got_t,)
+    elif how == "inplace" and name == "siv":
         r, got_c = w.call_inplace(o, "encrypt_and_digest", msg)
         if not (isinstance(r, tuple) and len(r) == 2 and r[0] is None and isinstance(r[1], bytes)) or got_c is None:
             return "encrypt_and_digest(output=input): %r" % (r,)
@@ -833,7 +843,12 @@ def run_mode(repo, name, cfg):
                 if name == "siv" and not p:
                     continue
                 w.call(o, "update", give(w, p))
-        if how == "inplace" and name == "siv":
+        if how == "declared0":
+            r = w.call(o, "decrypt", b"")
+            if r == b"":
+                v = w.call(o, "verify", t2)
+                r = b"" if v is None else v
+        elif how == "inplace" and name == "siv":
             r, buf = w.call_inplace(o, "decrypt_and_verify", c2, t2)
             if r is None:
                 r = buf
@@ -908,6 +923,9 @@ def configs(name, thorough=False):
         nonce, tlen = {"eax": (pat(16, 1), 16), "siv": (pat(16, 1), 16), "ccm": (pat(11, 1), 16), "chachapoly": (pat(12, 1), 16), "ocb": (pat(15, 1), 16)}.get(name, (pat(12, 1), 16))
         out.append(dict(key=key, nonce=nonce, header=pat(hl, 0x30), msg=pat(ml, 0x90), tlen=tlen, how=how))
     if name == "ccm":
+        # declared lengths of zero are declarations (not "undeclared"): empty message in an explicit encrypt() call
+        for hl in (0, 5):
+            out.append(dict(key=pat(16, 0x44), nonce=pat(11, 1), header=pat(hl, 0x30), msg=b"", tlen=16, how="declared0"))
         # SP 800-38C A.2.2: the length of the associated data is encoded on 2 bytes below 2^16 - 2^8, on 0xFFFE + 4 bytes from there
         for hl in (65279, 65280, 65535, 65536) if thorough else (65279, 65280, 65536):
             out.append(dict(key=pat(16, 0x41), nonce=pat(12, 5), header=pat(hl, 0x30), msg=pat(5, 0x90), tlen=8, how="one"))
